@@ -6,8 +6,10 @@ package jetrun
 import (
 	"bytes"
 	"fmt"
+	"io"
 	"regexp"
 	"strconv"
+	"testing/iotest"
 
 	"github.com/CloudyKit/jet/v6"
 )
@@ -81,6 +83,45 @@ func NewSet(files map[string]string, opts ...jet.Option) (*jet.Set, *jet.InMemLo
 		l.Set(k, v)
 	}
 	return jet.NewSet(l, opts...), l
+}
+
+// StyledLoader hands out readers that deliver their content in one of the ways the io.Reader contract
+// allows: "data-eof" returns the last bytes together with io.EOF, "one-byte" one byte per Read,
+// "half" half of what is asked for, "" whatever the inner loader does.
+type StyledLoader struct {
+	Inner jet.Loader
+	Style string
+}
+
+func (l *StyledLoader) Exists(p string) bool { return l.Inner.Exists(p) }
+
+func (l *StyledLoader) Open(p string) (io.ReadCloser, error) {
+	rc, err := l.Inner.Open(p)
+	if err != nil {
+		return nil, err
+	}
+	var r io.Reader = rc
+	switch l.Style {
+	case "data-eof":
+		r = iotest.DataErrReader(rc)
+	case "one-byte":
+		r = iotest.OneByteReader(rc)
+	case "half":
+		r = iotest.HalfReader(rc)
+	}
+	return struct {
+		io.Reader
+		io.Closer
+	}{r, rc}, nil
+}
+
+// NewStyledSet is NewSet with a StyledLoader in front of the in-memory loader.
+func NewStyledSet(files map[string]string, style string, opts ...jet.Option) *jet.Set {
+	l := jet.NewInMemLoader()
+	for k, v := range files {
+		l.Set(k, v)
+	}
+	return jet.NewSet(&StyledLoader{Inner: l, Style: style}, opts...)
 }
 
 // Get calls GetTemplate with recover.
